@@ -1,6 +1,6 @@
 (* C14 -- executable model of molli/chem/ensemble.py: ConformerEnsemble (constructor branches, append,
-   extend, collective transforms, whole-array setters, iteration, slicing, dumps, io round trip) and the
-   Conformer view class.
+   extend, collective transforms, whole-array setters, iteration, slicing (reading the slice and writing through
+   its elements), dumps, io round trip) and the Conformer view class.
 
    Numbers are exact integers or NaN ([num] = option Z): the claim is about SHAPES and about WHICH row
    is read or written, and integer-valued doubles make every transform (scale by an integer, translate by
@@ -229,6 +229,17 @@ Definition slice_ids (len : nat) (a b c : option Z) : option (list Z) :=
   | None => None
   end.
 
+(* `for conf in ens[a:b:c]: conf.<transform>` -- every element of the slice is a view of its row, so the rows named
+   by the slice are transformed one after the other, IN THE ORDER AND AS OFTEN AS the slice lists them (a slice that
+   listed a row twice would transform it twice: Proofs/Ens.v shows that slice_ids never does), every other row stays *)
+Fixpoint c_map_all (ks : list Z) (f : row3 -> row3) (e : ens) : option ens :=
+  match ks with
+  | [] => Some e
+  | k :: r => match c_map k f e with Some e' => c_map_all r f e' | None => None end
+  end.
+Definition slice_map (a b c : option Z) (f : row3 -> row3) (e : ens) : option ens :=
+  match slice_ids (nc e) a b c with Some ks => c_map_all ks f e | None => None end.
+
 (* ------------------------------------------------------------------ the store *)
 Record store := mkStore {
   enss  : list ens;                 (* every ensemble created so far *)
@@ -379,6 +390,7 @@ Inductive op :=
 | Nested (i : nat)
 | LoopDump (i : nat)                                    (* for c in ens: ens.dumps_xyz() -- ids visited by the outer loop *)
 | Slice (i : nat) (a b c : option Z)
+| SliceTranslate (i : nat) (a b c : option Z) (v : vec3)   (* for conf in ens[a:b:c]: conf.translate(v) *)
 | DumpXyz (i : nat) | DumpMol2 (i : nat)
 | ConfDumpXyz (i : nat) (k : Z) | ConfDumpMol2 (i : nat) (k : Z).
 
@@ -424,6 +436,7 @@ Definition ens_fun (W : store) (o : op) : option (nat * (ens -> option ens)) :=
   | ConfScale i k f => Some (i, fun e => if scale_ok f false then c_map k (r_scale f) e else None)
   | ConfTranslate i k v => Some (i, c_map k (r_add v))
   | ConfTransform i k M => Some (i, c_map k (r_mat M))
+  | SliceTranslate i a b c v => Some (i, slice_map a b c (r_add v))
   | _ => None
   end.
 
